@@ -102,6 +102,7 @@ func (m *Memory) Untag(reference string) {
 // Map dumps the memory into a built-in map structure.
 // Like other operations, calling Map() is go-routine safe.
 func (m *Memory) Map() map[string]ocispec.Descriptor {
+	defer verifhook.Point("resolver.Map")
 	m.lock.RLock()
 	defer m.lock.RUnlock()
 
